@@ -1434,9 +1434,12 @@ func (a Shards) createSeriesIterator(ctx context.Context, opt query.IteratorOpti
 	)
 	for _, sh := range a {
 		var idx Index
-		if idx, err = sh.Index(); err == nil {
-			idxs = append(idxs, idx)
+		if idx, err = sh.Index(); err != nil {
+			// A shard that cannot be read (disabled, closed) must fail the
+			// listing rather than be left out of it silently.
+			return nil, err
 		}
+		idxs = append(idxs, idx)
 		if sfile == nil {
 			sfile, _ = sh.SeriesFile()
 		}
